@@ -20,6 +20,7 @@ from . import keys as K
 def run_call(c: dict) -> str:
     """execute one abstract call against joserfc -> ok / unsupported / fail:<Type>"""
     from joserfc.errors import UnsupportedAlgorithmError
+    from joserfc import jwe
     side, op, ser, via, allow = c["side"], c["op"], c["ser"], c["via"], c["allow"]
     try:
         if side == "jws":
@@ -45,10 +46,25 @@ def run_call(c: dict) -> str:
         pt = J.jwe_plain(ser)
         kw = J.jwe_allow_args(allow, via, jwt=(ser == "jwt"))
         if op == "produce":
-            tok = J.jwe_produce(ser, hdr, pt, J.jkey(J.pub(jwk)), sender=J.jkey(sender) if sender else None, **kw)
+            tok = J.jwe_produce("general" if ser == "general_any" else ser, hdr, pt, J.jkey(J.pub(jwk)), sender=J.jkey(sender) if sender else None, **kw)
             return "ok" if tok else "fail:empty"
         if ser == "jwt":
             hdr = {"typ": "JWT", **hdr}
+        if ser == "general_any":
+            multi = (via == "registry" and isinstance(alg, str) and alg in R.JWE_ALGS and alg not in ("dir", "ECDH-ES")
+                     and isinstance(enc, str) and enc in R.ENC and zp in ("", "DEF"))
+            if not multi:
+                ser = "general"          # (no such token exists for direct modes / names refimpl cannot produce; algorithms= builds its own registry)
+            else:
+                other, okind = ("A256KW", "oct256") if alg == "A128KW" else ("A128KW", "oct128")
+                prot = {k: v for k, v in hdr.items() if k not in ("alg", "p2c")}       # (algorithm-specific members go with their recipient)
+                mine = {k: v for k, v in hdr.items() if k in ("alg", "p2c")}
+                parts = R.jwe_encrypt(prot, pt, [{"jwk": jwk, "header": mine}, {"jwk": K.get(okind), "header": {"alg": other}}])
+                tok = R.jwe_json(parts, flattened=False)
+                lst = None if allow["kind"] in ("absent", "empty") else sorted(set(allow["names"]) | {other})
+                reg = jwe.JWERegistry(algorithms=lst, verify_all_recipients=False)
+                got = jwe.decrypt_json(tok, J.jkey(K.get(okind)), registry=reg).plaintext
+                return "ok" if got == pt else "fail:content"
         tok = J.jwe_forge(ser, hdr, pt, jwk, sender)
         got = J.jwe_consume(ser, tok, J.jkey(jwk), sender=J.jkey(J.pub(sender)) if sender else None, **kw)
         return "ok" if got == pt else "fail:content"
@@ -66,6 +82,7 @@ def run_call_nested(c: dict) -> str:
     from joserfc import jwe, jws
     from joserfc.errors import UnsupportedAlgorithmError
     side, op, ser, via, allow = c["side"], c["op"], c["ser"], c["via"], c["allow"]
+    ser = "general" if ser == "general_any" else ser
     try:
         if side == "jws":
             alg = c["alg"]
